@@ -4,6 +4,7 @@
                                              repository's stable baseline still passes with the patch
   tools/seeded.py detect <seeded dir> [ID..] apply the patch to /repo's working tree, run the quick checks (default:
                                              the property named in meta.json), restore the tree
+  tools/seeded.py detect-wt <seeded dir> [ID..]  same, in a scratch worktree with VERIF_REPO pointing at it
 Nothing is ever committed in /repo."""
 import json
 import os
@@ -80,8 +81,41 @@ def detect(d, ids):
     return 0 if all(v["rc"] == 1 for v in out.values()) else 1
 
 
+def detect_wt(d, ids):
+    """like detect, but the patch is applied in a scratch worktree and the checks are pointed at it (VERIF_REPO), so
+    that /repo's working tree stays untouched while something else (a long sweep) is using it"""
+    d = os.path.abspath(d)
+    name = os.path.basename(d.rstrip("/"))
+    wt = f"/tmp/sv/detect-{name}"
+    shutil.rmtree(wt, ignore_errors=True)
+    sh("git", "-C", REPO, "worktree", "prune")
+    if sh("git", "-C", REPO, "worktree", "add", "--detach", wt, "HEAD").returncode:
+        print("worktree failed")
+        return 2
+    meta = json.load(open(os.path.join(d, "meta.json"))) if os.path.exists(os.path.join(d, "meta.json")) else {}
+    ids = ids or [meta.get("property")]
+    out = {}
+    try:
+        ap = sh("git", "-C", wt, "apply", os.path.join(d, "patch.diff"))
+        if ap.returncode:
+            print("patch does not apply:", ap.stderr[-300:])
+            return 2
+        for pid in ids:
+            r = sh(os.path.join(HERE, "vcheck"), pid, "--tier", os.environ.get("VERIF_TIER", "quick"),
+                   env=dict(os.environ, VERIF_REPO=wt))
+            mech = [ln.strip()[:200] for ln in r.stdout.splitlines() if ln.strip().startswith("mechanism=")]
+            out[pid] = r.returncode
+            print(pid, {0: "MISSED", 1: "caught", 3: "inconclusive"}.get(r.returncode, "?"), mech[:2])
+    finally:
+        sh("git", "-C", REPO, "worktree", "remove", "--force", wt)
+        shutil.rmtree(wt, ignore_errors=True)
+    return 0 if all(v == 1 for v in out.values()) else 1
+
+
 if __name__ == "__main__":
     if len(sys.argv) < 3:
         print(__doc__)
         sys.exit(2)
-    sys.exit(validate(sys.argv[2]) if sys.argv[1] == "validate" else detect(sys.argv[2], sys.argv[3:]))
+    fn = {"validate": lambda: validate(sys.argv[2]), "detect": lambda: detect(sys.argv[2], sys.argv[3:]),
+          "detect-wt": lambda: detect_wt(sys.argv[2], sys.argv[3:])}[sys.argv[1]]
+    sys.exit(fn())
